@@ -200,9 +200,71 @@ dom%(u)s(n: SI): SI == {
     return d, [], "dom%s(%d)" % (u, n)
 
 
+def b_exn(u, rng, n):
+    k = rng.range(3, 11)
+    d = '''
+define EX%(u)s: Category == ArithmeticException with;
+EX%(u)s: EX%(u)s@Category == add;
+thr%(u)s(i: SI, l: List SI): SI == {
+	i rem %(k)d = 0 => throw EX%(u)s;
+	i + #l
+}
+exn%(u)s(n: SI): SI == {
+	s: SI := 0;
+	for i: SI in 1..n repeat {
+		l: List SI := [i, i+1, i+2];
+		try s := (s + thr%(u)s(i, l)) rem %(M)d catch E in {
+			E has EX%(u)s => s := s + first l;
+			s := 0;
+		}
+	}
+	s
+}
+''' % dict(u=u, k=k, M=M)
+    return d, [], "exn%s(%d)" % (u, min(n, 600))
+
+
+def b_union(u, rng, n):
+    d = '''
+U%(u)s == Union(i: SI, s: String, l: List SI);
+mku%(u)s(k: SI): U%(u)s == {
+	import from U%(u)s;
+	k rem 3 = 0 => [k];
+	k rem 3 = 1 => ["s"];
+	[[k, k+1]]
+}
+uni%(u)s(n: SI): SI == {
+	import from U%(u)s, List U%(u)s;
+	us: List U%(u)s := [mku%(u)s k for k: SI in 1..n];
+	t: SI := 0;
+	for u in us repeat {
+		if u case i then t := (t + u.i) rem %(M)d;
+		else if u case s then t := t + #(u.s);
+		else t := t + first(u.l);
+	}
+	t
+}
+''' % dict(u=u, M=M)
+    return d, [], "uni%s(%d)" % (u, n)
+
+
+def b_float(u, rng, n):
+    d = '''
+flo%(u)s(n: SI): Integer == {
+	import from DoubleFloat, List DoubleFloat;
+	fs: List DoubleFloat := [i::DoubleFloat * 1.5 for i: SI in 1..n];
+	acc: DoubleFloat := 0.0;
+	for f in fs repeat acc := acc + f;
+	(integer acc) rem %(M)d
+}
+''' % dict(u=u, M=M)
+    return d, [], "flo%s(%d)" % (u, n)
+
+
 BLOCKS = [("list", b_list, 4), ("record", b_record, 4), ("node", b_node, 2), ("closure", b_closure, 2),
           ("generator", b_generator, 2), ("bigint", b_bigint, 3), ("string", b_string, 2), ("table", b_table, 2),
-          ("array", b_array, 3), ("domain", b_domain, 1)]
+          ("array", b_array, 3), ("domain", b_domain, 1),
+          ("exn", b_exn, 2), ("union", b_union, 2), ("float", b_float, 1)]
 
 
 def gen_blocks(rng, size="small"):
